@@ -160,6 +160,7 @@ type world struct {
 
 	lastReads int  // cache reads of the last controller call
 	broken    bool // a controller call panicked
+	populated bool // a world with ~100+ regions
 	finite    bool // small store limits (admissions get refused for quota)
 }
 
